@@ -43,7 +43,8 @@ class TextualDataType(BaseTextualDataType):
                     (encoding_chars['REPETITION'], '{esc}R{esc}'.format(esc=escape_char)),)
 
     def _get_escape_char_regex(self, escape_char):
-        return r'(%s[HNFSTREL]%s)' % tuple(2 * [re.escape(escape_char)])
+        return r'(%s(?:[HNFSTREL]|X(?:[0-9A-Fa-f]{2})+|Z[0-9A-Za-z]+|C[0-9A-Fa-f]{4}|M[0-9A-Fa-f]{4}(?:[0-9A-Fa-f]{2})?' \
+               r'|\.[0-9A-Za-z]+)%s)' % tuple(2 * [re.escape(escape_char)])
 
     def to_er7(self, encoding_chars=None):
         if encoding_chars is None:
